@@ -173,16 +173,16 @@ pub fn run(h: &Ev, evs: &mut Vec<Value>) {
             let s = slots[x].as_mut().expect("harness: dead slot");
             match op.as_str() {
                 "process" => {
-                    let d = get_bytes(&e, "data");
+                    let d = get_placed(&e, "data", "off");
                     // destination pre-filled with a pattern: the result must not depend on it
-                    let mut out = vec![0x5au8; get_usize_or(&e, "n", d.len())];
-                    s.process(&d, &mut out);
-                    Out::Val(out)
+                    let mut out = Placed::new(&vec![0x5au8; get_usize_or(&e, "n", d.get().len())], e.get("ooff").and_then(|v| v.as_u64()).map(|x| x as usize));
+                    s.process(d.get(), out.get_mut());
+                    Out::Val(out.get().to_vec())
                 }
                 "process_mut" => {
-                    let mut d = get_bytes(&e, "data");
-                    s.process_mut(&mut d);
-                    Out::Val(d)
+                    let mut d = get_placed(&e, "data", "off");
+                    s.process_mut(d.get_mut());
+                    Out::Val(d.get().to_vec())
                 }
                 "seek" => {
                     s.seek(get_limbs_u64(&e, "block") as u32);
